@@ -6,6 +6,10 @@ B2  DiscParallelExecution / DiscParallelLinearization (threads) with one failing
 B3  two disciplines sharing one MemoryFullCache (virtual re-entrant lock = scheduling points)
 B4  parallel finite differences (process back-end) under every forced completion order == serial
 B5  parallel DOE (process back-end) under every forced completion order == sequential DOE database
+B9  every history (<= 2 executions, thorough 3) of DiscParallelExecution / MDOParallelChain on disciplines with an optional
+    input that is given or omitted, thread and process back-ends: returned data and the disciplines' own data == sequential twins
+B8  every history (<= 2 calls, thorough 3) of f_gradient / compute_optimal_step with changing keyword arguments and
+    component selections on the three approximators (process back-end; threads are refused by the pool) == the same history on a sequential twin
 """
 from __future__ import annotations
 
@@ -360,6 +364,143 @@ def _b7(prefix, tally, seed=0):
     return x.trace
 
 
+# -- B8: call histories of the gradient approximators, parallel twin vs sequential twin ------------------
+def _b8_f(x, a=1.0, b=0.0):
+    """Analytic in x (complex step works), depends on its keyword arguments."""
+    return np.array([a * x[0] ** 2 + 2.0 * x[1] + b, a * x[0] * x[1] - b * x[1] ** 2])
+
+
+_B8_KW = {"none": {}, "a2": {"a": 2.0}, "a3b": {"a": 3.0, "b": 0.5}}
+_B8_CALLS = [("grad", "none", ()), ("grad", "a2", ()), ("grad", "a3b", ()), ("grad", "none", (1,)), ("opt", "none", ()), ("opt", "a2", ()), ("opt", "a3b", ())]
+
+
+def _b8_cases(thorough):
+    cases = []
+    for cls in ("FirstOrderFD", "CenteredDifferences", "ComplexStep"):
+        calls = [c for c in _B8_CALLS if not (cls == "ComplexStep" and c[0] == "opt")]
+        hists = [[c] for c in calls] + [[c1, c2] for c1 in calls for c2 in calls]
+        if thorough:
+            hists += [[c1, c2, c3] for c1 in calls for c2 in calls for c3 in calls if len({c1, c2, c3}) > 1]
+        # the approximators hand one bound method to every task, which the thread back-end refuses by design
+        # ("all workers shall be different objects"): only the process back-end is a legal configuration here
+        for threads in (False,):
+            for h in hists:
+                cases.append({"part": "B8", "cls": cls, "threads": threads, "history": [list(map(lambda v: list(v) if isinstance(v, tuple) else v, c)) for c in h]})
+    return cases
+
+
+def _b8(case, tally):
+    import gemseo.utils.derivatives.centered_differences as cd
+    import gemseo.utils.derivatives.complex_step as cs
+    import gemseo.utils.derivatives.finite_differences as fd
+
+    cls = {"FirstOrderFD": fd.FirstOrderFD, "CenteredDifferences": cd.CenteredDifferences, "ComplexStep": cs.ComplexStep}[case["cls"]]
+    step = 1e-20 if case["cls"] == "ComplexStep" else 1e-4
+    seq = cls(_b8_f, step=step)
+    par = cls(_b8_f, step=step, parallel=True, n_processes=2, use_threading=case["threads"])
+    x0 = np.array([1.5, -0.75])
+    obs = {"seq": [], "par": []}
+    err = io.StringIO()
+    with contextlib.redirect_stderr(err):
+        for name, ap in (("seq", seq), ("par", par)):
+            for kind, kw, xi in case["history"]:
+                try:
+                    if kind == "grad":
+                        r = ap.f_gradient(x0.copy(), x_indices=list(xi), **_B8_KW[kw])
+                        obs[name].append(np.asarray(r).tolist())
+                    else:
+                        steps, errors = ap.compute_optimal_step(x0.copy(), **_B8_KW[kw])
+                        obs[name].append([np.asarray(steps).tolist(), np.asarray(errors).tolist()])
+                except Exception as e:  # both twins must then fail alike
+                    obs[name].append(f"raised:{type(e).__name__}")
+    tally.traces += 1
+    kws = [c[1] for c in case["history"]]
+    tally.case(("B8", case["cls"], case["threads"], str(case["history"])), nontrivial=len(set(kws)) > 1 or kws[0] != "none",
+               outcome=f"B8:{case['cls']}:{'eq' if obs['seq'] == obs['par'] else 'diff'}")
+    if obs["seq"] != obs["par"]:
+        k = next(i for i, (a, b) in enumerate(zip(obs["seq"], obs["par"])) if a != b)
+        tally.violation({"invariant": "parallel-approximation-differs-from-sequential", "part": "B8", "cls": case["cls"], "call": case["history"][k][0]}, case,
+                        f"{case['cls']} threads={case['threads']} history={case['history']}: call {k} returns\n  sequential={obs['seq'][k]}\n  parallel  ={obs['par'][k]}")
+
+
+# -- B9: execution histories with changing sets of provided inputs, both back-ends, vs sequential twins ----------
+_B9_INPUTS = {
+    "ab": [{"a": [1.0], "b": [10.0]}, {"a": [2.0], "b": [20.0]}],
+    "a": [{"a": [3.0]}, {"a": [4.0]}],
+    "ab2": [{"a": [-1.0], "b": [0.5]}, {"a": [5.0], "b": [-2.0]}],
+}
+
+
+def _b9_cls():
+    from gemseo.core.discipline import Discipline
+
+    class Opt(Discipline):
+        """y_k = k a + b with an optional input b (0 when absent)."""
+
+        def __init__(self, k):
+            super().__init__(name=f"D{k}")
+            self.k = k
+            self.io.input_grammar.update_from_names(["a", "b"])
+            self.io.input_grammar.required_names.remove("b")
+            self.io.output_grammar.update_from_names([f"y{k}"])
+
+        def _run(self, input_data):
+            return {f"y{self.k}": self.k * input_data["a"] + input_data.get("b", np.array([0.0]))}
+
+    return Opt
+
+
+def _b9_cases(thorough):
+    keys = list(_B9_INPUTS)
+    hists = [[k] for k in keys] + [[k1, k2] for k1 in keys for k2 in keys]
+    if thorough:
+        hists += [[k1, k2, k3] for k1 in keys for k2 in keys for k3 in keys]
+    return [{"part": "B9", "container": c, "threads": t, "history": h} for c in ("DiscParallelExecution", "MDOParallelChain") for t in (True, False) for h in hists]
+
+
+def _b9(case, tally):
+    from gemseo.core.chains.parallel_chain import MDOParallelChain
+    from gemseo.core.parallel_execution.disc_parallel_execution import DiscParallelExecution
+
+    Opt = _b9_cls()
+    discs, twins = [Opt(1), Opt(2)], [Opt(1), Opt(2)]
+    same = lambda d, e: set(d) == set(e) and all(np.array_equal(d[n], e[n]) for n in d)
+    show = lambda d: {n: np.asarray(v).tolist() for n, v in sorted(d.items())}
+    bad = []
+    err = io.StringIO()
+    with contextlib.redirect_stderr(err):
+        if case["container"] == "DiscParallelExecution":
+            par = DiscParallelExecution(discs, n_processes=2, use_threading=case["threads"])
+        else:
+            par = MDOParallelChain(discs, use_threading=case["threads"], n_processes=2)
+        for step, key in enumerate(case["history"]):
+            ins = [{n: np.array(v) for n, v in d.items()} for d in _B9_INPUTS[key]]
+            if case["container"] == "DiscParallelExecution":
+                outs = par.execute(ins)
+                for twin, i in zip(twins, ins):
+                    twin.execute({n: v.copy() for n, v in i.items()})
+                for k, (o, twin) in enumerate(zip(outs, twins)):
+                    if o is None or not same(o, twin.io.data):
+                        bad.append(("parallel-returned-data-differ", step, f"task {k}: returned {show(o) if o is not None else None} sequential {show(twin.io.data)}"))
+            else:
+                out = par.execute(ins[0])
+                for twin in twins:
+                    twin.execute({n: v.copy() for n, v in ins[0].items()})
+                exp = {n: v for twin in twins for n, v in twin.io.get_output_data().items()}
+                got = {n: out[n] for n in exp if n in out}
+                if not same(got, exp):
+                    bad.append(("parallel-chain-outputs-differ", step, f"chain outputs {show(got)} sequential {show(exp)}"))
+            for d, twin in zip(discs, twins):
+                if not same(d.io.data, twin.io.data):
+                    bad.append(("parallel-discipline-data-differ", step, f"{d.name}: data after the parallel execution {show(d.io.data)} after the sequential one {show(twin.io.data)}"))
+    tally.traces += 1
+    h = case["history"]
+    tally.case(("B9", case["container"], case["threads"], tuple(h)), nontrivial=len({frozenset(_B9_INPUTS[k][0]) for k in h}) > 1,
+               outcome=f"B9:{case['container']}:{'threads' if case['threads'] else 'processes'}:{'bad' if bad else 'ok'}")
+    for inv, step, msg in bad:
+        tally.violation({"invariant": inv, "part": "B9", "container": case["container"], "threads": case["threads"]}, case, f"history {h} execution {step}: {msg}")
+
+
 # -- B4 / B5: forced completion orders on the process back-end -----------------------------------
 class _GatedFunction:
     """f(x) = [x0^2 + 2 x1, x0 x1]; the evaluation of point number k waits for its turn in the forced order."""
@@ -532,6 +673,12 @@ def run(ctx):
                 cases5.append({"part": "B5", "order": list(o), "fail": [], "W": w, "scratch": ctx.scratch})
     pmap(_b4, cases4, tally, jobs=ctx.jobs, chunk=2, timeout=120)
     pmap(_b5, cases5, tally, jobs=ctx.jobs, chunk=2, timeout=120)
+    cases8 = _b8_cases(ctx.thorough)
+    pmap(_b8, cases8, tally, jobs=ctx.jobs, chunk=4, timeout=300)
+    info["B8_histories"] = len(cases8)
+    cases9 = _b9_cases(ctx.thorough)
+    pmap(_b9, cases9, tally, jobs=ctx.jobs, chunk=4, timeout=300)
+    info["B9_histories"] = len(cases9)
     info["B4_forced_orders"] = len(cases4)
     info["B5_forced_orders"] = len(cases5)
     tally.notes["partB"] = {k: (v if not isinstance(v, dict) else {"deviation_bound": v["deviation_bound"], "schedules": v["schedules"]}) for k, v in info.items()}
@@ -557,4 +704,8 @@ def replay(case, ctx):
         _b4(dict(case, scratch=ctx.scratch), t)
     elif part == "B5":
         _b5(dict(case, scratch=ctx.scratch), t)
+    elif part == "B8":
+        _b8(case, t)
+    elif part == "B9":
+        _b9(case, t)
     return {"violations": [v["message"] for v in t.violations.values()]}
